@@ -222,7 +222,7 @@ struct Scenario {
       for (auto &kv : wire_queries()) { auto &v = kv.second.txs;
         for (size_t i = 0; i + 1 < v.size(); i++) { const Tx *a = v[i], *b = v[i + 1];
           if (a->outcome != O_SILENCE || a->tcp) continue;
-          bool history = false; for (auto &p : w.provs) if (p.genuine && p.server == a->server && p.t <= a->t && (p.outcome == O_ANSWER || p.outcome == O_NXDOMAIN || p.outcome == O_NODATA || p.outcome == O_NXDOMAIN_SOA || p.outcome == O_NODATA_SOA || p.outcome == O_DUP || p.outcome == O_DELAY || p.outcome == O_EMPTY)) history = true;
+          bool history = false; for (auto &p : w.provs) if (p.genuine && p.server == a->server && p.t <= a->t && (p.outcome == O_ANSWER || p.outcome == O_NXDOMAIN || p.outcome == O_NODATA || p.outcome == O_NXDOMAIN_SOA || p.outcome == O_NODATA_SOA || p.outcome == O_DUP || p.outcome == O_DELAY || p.outcome == O_EMPTY || p.outcome == O_TC)) history = true;   // (a truncated reply ends the query successfully under ARES_FLAG_IGNTC: its round-trip time is learned like any other)
           int64_t base = history ? 250 : std::min<int64_t>(std::max<int64_t>(S.opt.timeout, 250), cap);
           // another request sharing the socket may legitimately close it on a read error; only silent sockets count
           bool other_traffic = false; for (auto &d : w.delivered) if (d.t >= a->t && d.t <= b->t) other_traffic = true;   // e.g. a malformed packet makes the library drop the socket and requeue everything on it
